@@ -40,8 +40,10 @@ CLAIMED = {
         "what the parser's events record: index into the accepted time table, least state kind, characters, equal neighbours once "
         "(on top of storage_transparent, C04); vcd_stream_transparent_rs is the same for real and string variables; parse_body_lines / "
         "vcd_lines_transparent start from the text: a body written one token group per line is parsed into exactly the events its lines "
-        "denote and reported accordingly. Not covered by the theorems: other layouts of the same tokens (several groups per line, CRLF, "
-        "indentation) and the multi-threaded path (C03). Those, and the tie of the "
+        "denote and reported accordingly; parse_body_layout / vcd_layout_transparent(_rs) do the same for ANY layout of the token groups "
+        "(separated by any non-empty blank space: several groups per line, CRLF, tabs, indentation, empty lines; what precedes the "
+        "first line feed is skipped - finding D6). Not covered by the theorems: `$dumpall`, a last token with no blank space behind "
+        "it, and the multi-threaded path (C03). Those, and the tie of the "
         "model to vcd.rs/wavemem.rs, are decided by the correspondence run: the extracted model against the real loader on generated "
         "files, plus the oracle computed from the abstract history; exhaustive sweeps over every byte as value character and every "
         "(width, written length, leading character).",
@@ -52,7 +54,7 @@ CLAIMED = {
    category="proof",
    text="Coq theorem read_values_mt_equals_st (Proofs/MtProofs.v, pinned in Properties/C03.v): for every VCD body written one token "
         "group per line (time stamps, scalar and vector/real/string changes, $comment blocks, $dumpvars/$end/$dumpoff/$dumpon, any "
-        "content) whose first line is a time stamp and whose time stamps increase, for EVERY max_threads and min_chunk - hence every "
+        "content) whose time stamps - the implicit time 0 of changes in front of the first time stamp included - increase, for EVERY max_threads and min_chunk - hence every "
         "number of chunks and every division point the production chunking can produce - and, in mt_equals_st, for every division of "
         "the body into consecutive chunks of any sizes whatsoever (boundaries inside tokens, time stamps, comments, directly before or "
         "after a newline, chunks holding no time stamp), the model of read_values' multi-threaded branch (determine_thread_chunks, "
@@ -63,8 +65,8 @@ CLAIMED = {
         "(determine_thread_chunks yields consecutive chunks covering the body). For arbitrary layouts handover_segment / chunk_simulates "
         "prove the parser half only. The hypotheses are exactly the line discipline LD1-LD5 outside which the property is FALSE on this "
         "code (7 known findings with witnesses, re-confirmed on every run). read_values_mt_equals_st_rs is the same theorem for "
-        "real-valued and string-valued variables. Not covered by the end-to-end theorems: bodies that start with changes at the "
-        "implicit time 0, several token groups per line. Those, and the tie "
+        "real-valued and string-valued variables. Not covered by the end-to-end theorems: several token groups per line, indented "
+        "lines. Those, and the tie "
         "of the model to vcd.rs/wavemem.rs, are decided by the correspondence run: the extracted model against the real multi-threaded "
         "loader (MIN_CHUNK_SIZE override hook, rayon pools of 1..16 threads) with a chunk boundary swept over every byte alignment, "
         "production chunking on 16 KiB..MiB bodies, recordings of 70000..200000 time steps; oracle: equals the single-threaded "
@@ -113,18 +115,28 @@ CLAIMED = {
    note="Trusted: Coq kernel, extraction (ExtrOcamlBasic), OCaml driver incl. float_of_string as f64 parser and identity as LZ4, Rust harness, generators and the Python oracle computed from the abstract history.  mmap, BufReader and ProgressTracker are I/O plumbing: exercised, not modelled.",
    technique="correspondence: Coq model of the three body drivers extracted to OCaml vs real entry points + oracle"),
  "C15": dict(
-   category="translation_validation",
-   text="Every truncation offset of generated VCD bodies is loaded (path, reader, multi-threaded) by the real code and by the extracted "
-        "model (panics, errors and results must coincide); oracle: never panic/hang outside the recorded class CutInsideChange (known "
-        "finding D9), prefix property of table and changes, exact restriction at line boundaries. Coq theorems pinned in Properties/C15.v "
-        "state the property for cuts where no token is pending: prefix_events / cut_at_token_boundary (parser), "
+   category="proof",
+   text="Coq theorems pinned in Properties/C15.v state the property's prefix clauses for the single-threaded loader and bit-vector "
+        "variables, for EVERY body and EVERY cut offset (truncated_any_cut; truncated_any_cut_rs for real and string variables) and its "
+        "exactness at line ends (truncated_at_line_end); the "
+        "panic-freedom clause is false on this tree (finding D9) and, like the multi-threaded path, is decided by "
+        "the enumeration: every truncation offset of generated VCD bodies is loaded (path, reader, multi-threaded) by the real code and by "
+        "the extracted model (panics, errors and results must coincide); oracle: never panic/hang outside the recorded class "
+        "CutInsideChange (D9), prefix property of table and changes, exact restriction at line boundaries. The theorems: "
+        "prefix_events / cut_at_token_boundary (parser), "
         "prefix_history_prefix_report (store: a history that is a prefix of another is reported as a prefix - time table and every "
         "bit-vector signal), truncated_vcd_prefix_report (their composition for the single-threaded loader) and truncated_at_line_end "
         "(the line-boundary clause from the text: a body written one token group per line and cut at the end of a line loads as exactly "
-        "the meaning of the lines present - time table and every bit-vector variable - and as a prefix of the complete load).",
+        "the meaning of the lines present - time table and every bit-vector variable - and as a prefix of the complete load); "
+        "truncated_any_cut (a cut at ANY byte: whenever the truncated body loads, its time table is the table of the common events plus "
+        "at most one entry - hence without its last entry a prefix of the complete table -, both reports extend the report of the common "
+        "events, every change the truncated file adds lies at its last time and every change the complete file adds lies at or after "
+        "it - hence the changes before the last time are the same: changes_before_last; parser half prefix_events_time: a time stamp "
+        "cut inside its digits denotes a time not larger than the complete one). That loading a body cut inside a token never panics is "
+        "not a theorem: it is false on this tree (finding D9).",
    design_ref="DESIGN.md section 6, C15",
-   note="Trusted: Coq kernel, extraction (ExtrOcamlBasic), OCaml driver incl. float_of_string as f64 parser and identity as LZ4, Rust harness, generators and the Python oracle computed from the abstract history. Cuts inside a token, real/string variables and the multi-threaded path are decided by the enumeration only.",
-   technique="fault enumeration over all cut points; correspondence with the Coq model extracted to OCaml + prefix oracle; Coq theorems for cuts at token boundaries"),
+   note="Trusted: Coq kernel, extraction (ExtrOcamlBasic), OCaml driver incl. float_of_string as f64 parser and identity as LZ4, Rust harness, generators and the Python oracle computed from the abstract history. Panic-freedom at cuts inside a token (false: D9) and the multi-threaded path are decided by the enumeration only. Theorem premises: A-lz4 round trip; < 2^32 time-table entries; < 4 GiB per signal; block capacity <= 65536.",
+   technique="Coq proof (every cut offset: table and changes before the last time are those of the complete file) + fault enumeration over all cut points with the extracted model and a prefix oracle"),
  "C08": dict(
    category="proof",
    text="Coq theorem hierarchy_wellformed (Proofs/HierProofs.v, pinned in Properties/C08.v): for every balanced sequence of "
@@ -133,8 +145,11 @@ CLAIMED = {
         "scope occurs exactly once, parent links agree with the lists, parents precede children, sibling scopes have distinct names; "
         "the scope stack's cached last children are exact (invariant hinv with add_var_inv, add_scope_inv, pop_scope_inv). hierarchy_walk "
         "(Proofs/NavProofs.v): the pre-order walk from the top-level items through each scope's items terminates within its fuel and "
-        "visits every variable and scope exactly once, full_name of every item is defined. Not covered by the theorems: that full_name "
-        "is the '.'-join along the walk, lookup_*, the signal-reference table, unbalanced pops; these "
+        "visits every variable and scope exactly once, full_name of every item is defined. hierarchy_lookup (Proofs/LookupProofs.v): "
+        "lookup_scope returns for a path a scope whose ancestors' names and own name are exactly that path, every scope is found "
+        "under its own path, and Scope::full_name is the '.'-join of that path. signal_refs_resolve: every variable's signal reference "
+        "lies below num_unique_signals and get_signal_tpe resolves it. hierarchy_lookup_var: lookup_var(_with_index) returns the first "
+        "declared variable of the looked-up scope with the given name and index. Not covered by the theorems: unbalanced pops; these "
         "and the tie to hierarchy.rs are decided by the correspondence run: the extracted model against the real builder (hook) on "
         "every op list of length <= 6 over a 6-symbol alphabet (55 986 lists, incl. unbalanced ones that must panic alike) and random "
         "lists to length 200; oracle: an independent rose-tree specification.",
